@@ -26,5 +26,6 @@ static inline void xv_tpcore_havoc(void)
     xv_ctld_calls = nondet_long(); xv_ctld_seq = nondet_long(); xv_ctld_arg = nondet_voidp(); xv_ctld_owner = nondet_bool();
     xv_ctl_live = nondet_long();
     xv_id_calls = nondet_long(); xv_id_ret = nondet_long();
+    xv_g_ctl = nondet_bool(); xv_g_auto_upd = nondet_bool(); xv_g_auto_ctl = nondet_bool(); xv_g_own_en = nondet_bool(); xv_g_skipped = nondet_size_t();
 }
 #endif
